@@ -153,8 +153,13 @@ func ReachingStore(load *ssa.UnOp) *ssa.Store {
 			continue
 		}
 		sb := s.Block()
-		if sb == b && instrIndex(s) > li && !fromD[b] {
-			continue
+		if sb == b && instrIndex(s) > li {
+			// a later store in the load's own block matters only if the block can be entered again without
+			// passing the candidate store
+			if !ReachFrom(b.Succs, cutIn)[b] {
+				continue
+			}
+			return nil
 		}
 		if sb == cand.Block() {
 			if instrIndex(s) > instrIndex(cand) {
